@@ -66,9 +66,11 @@ def make_case(index, rng, tier):
         i = rng.randrange(len(headers))
         headers[i][1] = inject(rng, headers[i][1], cls)
     elif field == "hop":
-        n = rng.choice(HOP)
-        v = rng.choice(["close", "keep-alive", "chunked", "websocket", "upgrade", "x", "timeout=5"])
-        headers.insert(rng.randrange(len(headers) + 1), [n, v])
+        # one to three hop-by-hop fields: the filter keeps state between them (Connection: upgrade / Upgrade: websocket)
+        for _ in range(rng.choice([1, 1, 2, 3])):
+            n = rng.choice(HOP)
+            v = rng.choice(["close", "keep-alive", "chunked", "websocket", "upgrade", "x", "timeout=5", "h2c", "Upgrade", "WebSocket"])
+            headers.insert(rng.randrange(len(headers) + 1), [n, v])
     body = rng.choice([["hello"], [], ["a", "b"], ["x" * 300]])
     if rng.randrange(3) == 0:
         headers.append(["Content-Length", str(sum(len(c) for c in body))])
@@ -77,6 +79,8 @@ def make_case(index, rng, tier):
     if rng.randrange(5) == 0:
         s2 = rng.choice(["500 Late", "200 Again"])
         h2 = [["X-Second", "2"]]
+        if rng.randrange(3) == 0:
+            h2.insert(rng.randrange(2), [rng.choice(HOP), rng.choice(["upgrade", "websocket", "x", "chunked", "close"])])
         if rng.randrange(2):
             s2 = inject(rng, s2, cls) if rng.randrange(2) else s2
             if rng.randrange(2):
